@@ -4,7 +4,7 @@ import json
 import random
 import re
 
-from .. import common, translate
+from .. import canon, common, translate
 from ..common import coq_string, coq_list
 from ..prog import Contract, Method, Arg, P, sv_msg, sv_override, sv_features, CTX_TYPE
 
@@ -82,21 +82,27 @@ def canon_impl(facts):
             m = re.match(r"pat=msg;ty=(.*)", p)
             if m:
                 msg_ty = m.group(1)
-        m = re.fullmatch(r"\{ msg \. dispatch \(& (.+?) :: new \(\) , \((.*?)\)\) \. map_err \(Into :: into\) \}", body)
+        # (bindings inlined, equivalent spellings of the error conversion unified: canon.norm_expr)
+        nb = canon.norm_expr(body).strip()
+        if not (nb.startswith("{") and nb.endswith("}")):
+            nb = "{ %s }" % nb
+        m = re.fullmatch(r"\{ msg \. dispatch \(& (.+?) :: new \(\) , \((.*?)\)\) \. map_err \(Into :: into\) \}", nb)
         if m:
             acc = re.fullmatch(r"< (.+) as sylvia :: types :: ContractApi > :: (\w+)", msg_ty)
             vals = ",".join(x.strip() for x in m.group(2).split(",") if x.strip())
             out.append("%s=dispatch:%s:%s" % (name, acc.group(2) if acc else "?" + msg_ty, vals))
             details[name]["contract"] = m.group(1)
             continue
-        m = re.fullmatch(r"\{ let contract = (.+?) :: new \(\) ; sv :: dispatch_reply \((.*?) , msg , contract\) \. map_err \(Into :: into\) \}", body)
+        m = re.fullmatch(r"\{ let contract = (.+?) :: new \(\) ; sv :: dispatch_reply \((.*?) , msg , contract\) \. map_err \(Into :: into\) \}", body) or \
+            re.fullmatch(r"\{ ()sv :: dispatch_reply \((.*?) , msg , .+? :: new \(\)\) \. map_err \(Into :: into\) \}", nb)
         if m:
             vals = ",".join(x.strip() for x in m.group(2).split(",") if x.strip())
             out.append("%s=reply_dispatch:%s" % (name, vals))
             continue
-        m = re.fullmatch(r"\{ (.+?) :: new \(\) \. (\w+) \(\((.*?)\) \. into \(\) , msg\) \. map_err \(Into :: into\) \}", body)
+        m = re.fullmatch(r"\{ (.+?) :: new \(\) \. (\w+) \(\((.*?)\) \. into \(\) , msg\) \. map_err \(Into :: into\) \}", body) or \
+            re.fullmatch(r"\{ (.+?) :: new \(\) \. (\w+) \((?:\((.*?)\) \. into \(\)|Into :: into \(\((.*?)\)\)) , msg\) \. map_err \(Into :: into\) \}", nb)
         if m:
-            vals = ",".join(x.strip() for x in m.group(3).split(",") if x.strip())
+            vals = ",".join(x.strip() for x in (m.group(3) or (m.group(4) if m.lastindex and m.lastindex >= 4 else "") or "").split(",") if x.strip())
             out.append("%s=reply_legacy:%s:%s" % (name, m.group(2), vals))
             continue
         out.append("%s=unknown:%s" % (name, body))
